@@ -30,6 +30,36 @@ pub mod util {
     //@@ITEMS util
     }
 }
+pub mod syntax {
+    use vstd::prelude::*;
+    use crate::*;
+    verus! {
+    /// opaque stand-in for the token walker (parse_prefix reads raw tokens through three stubs)
+    #[verifier::external_body]
+    pub struct Walker<'src> { _p: &'src str }
+    #[verifier::external_body]
+    #[derive(Clone, Copy)]
+    pub struct SpanToken { _p: u8 }
+    /// kind and text of the n-th raw token in front of the cursor (blanks and comments included; uninterpreted)
+    pub uninterp spec fn raw_kind(w: &Walker, n: int) -> TokenKind;
+    pub uninterp spec fn raw_text(w: &Walker, n: int) -> Seq<char>;
+    pub uninterp spec fn text_at(w: &Walker, span: diagn::Span) -> Seq<char>;
+    pub open spec fn ignorable(k: TokenKind) -> bool { k is Whitespace || k is Comment || k is LineBreak }
+    /// derived PartialEq of TokenKind (ASSUMED to be what #[derive] generates: equal variants)
+    impl vstd::std_specs::cmp::PartialEqSpecImpl for TokenKind {
+        open spec fn obeys_eq_spec() -> bool { true }
+        open spec fn eq_spec(&self, other: &TokenKind) -> bool { *self == *other }
+    }
+    impl PartialEq for TokenKind {
+        #[verifier::external_body]
+        fn eq(&self, other: &TokenKind) -> (r: bool) { unimplemented!() }
+    }
+    /// R28 helper: `STR.chars()` as the vector of the string's characters in order (ASSUMED)
+    #[verifier::external_body]
+    pub fn verif_chars(s: &&str) -> (r: Vec<char>) ensures r@ == (**s)@ { unimplemented!() }
+    //@@ITEMS syntax
+    }
+}
 pub mod asm {
     use vstd::prelude::*;
     use crate::*;
@@ -38,6 +68,7 @@ pub mod asm {
     pub mod defs {
         use vstd::prelude::*;
         use crate::*;
+        use crate::syntax::verif_chars;
         broadcast use {vstd::std_specs::hash::group_hash_axioms, crate::axioms::axiom_char4_key_model};
 
         /// number of leading non-NUL characters of a prefix (at most 4)
@@ -124,6 +155,42 @@ pub mod asm {
             assert forall|e: RuledefMapEntry| s.contains(e) implies #[trigger] s.push(x).contains(e) by {
                 let i = choose|i: int| 0 <= i < s.len() && s[i] == e;
                 assert(s.push(x)[i] == e);
+            }
+        }
+        // ---- the key of an instruction text (parse_prefix)
+        /// the characters of the raw tokens n, n+1, .. up to the first blank, comment or line break (at most `fuel` tokens)
+        pub open spec fn lead_chars(w: &syntax::Walker, n: int, fuel: nat) -> Seq<char> decreases fuel {
+            if fuel == 0 || syntax::ignorable(syntax::raw_kind(w, n)) { Seq::empty() } else { syntax::raw_text(w, n) + lead_chars(w, n + 1, (fuel - 1) as nat) }
+        }
+        /// the characters of the raw tokens 0 .. n-1
+        pub open spec fn cat(w: &syntax::Walker, n: int) -> Seq<char> decreases n {
+            if n <= 0 { Seq::empty() } else { cat(w, n - 1) + syntax::raw_text(w, n - 1) }
+        }
+        /// C08 property text: the key an instruction is looked up under = the first <= 4 characters of its leading run of
+        /// tokens (everything up to the first blank, comment or line break, whatever kind the tokens are), lower-cased, NUL-padded
+        pub open spec fn text_key(cs: Seq<char>) -> Seq<char> {
+            Seq::new(4, |j: int| if j < cs.len() { spec_lower(cs[j]) } else { '\0' })
+        }
+        pub open spec fn run_of_tokens(w: &syntax::Walker, t: int) -> bool {
+            forall|k: int| 0 <= k < t ==> !syntax::ignorable(#[trigger] syntax::raw_kind(w, k)) && syntax::raw_text(w, k).len() >= 1
+        }
+        pub proof fn lemma_cat_len(w: &syntax::Walker, t: int)
+            requires 0 <= t, run_of_tokens(w, t)
+            ensures cat(w, t).len() >= t
+            decreases t
+        {
+            if t > 0 { lemma_cat_len(w, t - 1); assert(!syntax::ignorable(syntax::raw_kind(w, t - 1))); }
+        }
+        /// a run of t tokens (t <= fuel): the leading characters are theirs followed by what comes after
+        pub proof fn lemma_lead_split(w: &syntax::Walker, t: int, fuel: nat)
+            requires 0 <= t <= fuel, run_of_tokens(w, t)
+            ensures lead_chars(w, 0, fuel) =~= cat(w, t) + lead_chars(w, t, (fuel - t) as nat)
+            decreases t
+        {
+            if t > 0 {
+                lemma_lead_split(w, t - 1, fuel);
+                assert(!syntax::ignorable(syntax::raw_kind(w, t - 1)));
+                assert(lead_chars(w, t - 1, (fuel - (t - 1)) as nat) =~= syntax::raw_text(w, t - 1) + lead_chars(w, t, (fuel - t) as nat));
             }
         }
         //@@ITEMS defs
